@@ -74,6 +74,10 @@ def build(cfg):
                 else:
                     kw["expected_groups"] = np.array(cfg["expected"], dtype=float)
                 kw["fill_value"] = cfg.get("fill_value", -99)
+                if kw["fill_value"] == "NA":
+                    from flox import xrdtypes
+
+                    kw["fill_value"] = xrdtypes.NA  # the sentinel flox's own tests pass: "fill with the dtype's missing value"
             if cfg.get("user_agg"):
                 kw["func"] = user_aggregation(cfg["user_agg"])
             if cfg.get("finalize_kwargs"):
@@ -232,6 +236,11 @@ def wide_cfgs(tier="quick"):
         for method in ("map-reduce", "cohorts"):
             out.append(dict(kind="reduce", func=func, method=method, engine=None, labels=lab, chunks=ch, batch_blocks=1, value_kind="datetime",
                             nat=func.startswith("nan") or func == "count", wide=True))
+    for func in ("sum", "nanmax", "nanmean", "count"):
+        for method in ("map-reduce", "cohorts", "blockwise"):
+            # the NA sentinel as fill_value with an absent requested label (3): must survive the pickle round trip of the tasks
+            out.append(dict(kind="reduce", func=func, method=method, dtype="float64", engine="numpy", labels=[0, 0, 1, 1, 2, NAN] if method == "blockwise" else lab,
+                            chunks=ch, batch_blocks=1, expected=[0, 1, 2, 3], fill_value="NA", wide=True))
     for func in ("nansum", "nanmax", "nanmean", "nanargmin"):
         out.append(dict(kind="reduce", func=func, method="map-reduce", dtype="float64", engine="numpy", labels=lab, chunks=ch, batch_blocks=1,
                         min_count=2, expected=[0, 1, 2], wide=True))
